@@ -16,7 +16,7 @@ T = 'urn:t'
 O = 'urn:o'
 # symbol -> (namespace, local name) of an instance child element
 SYM = {'a': (T, 'a'), 'b': (T, 'b'), 'c': (T, 'c'), 'm': (T, 'm'), 'f': (O, 'f'), 'u': (T, 'u'),
-       'x': (T, 'x'), 'k': (T, 'k'), 'z': ('', 'z')}
+       'x': (T, 'x'), 'k': (T, 'k'), 'z': ('', 'z'), 'p': (T, 'p'), 'q': (T, 'q'), 'j': (T, 'j')}
 # leaf kind -> symbols matched.  'a' is the head of a substitution group with member m and, through the
 # ABSTRACT member n (never usable itself), the second-level member k;
 # w = ##other (lax), W = ##any (lax), t = ##targetNamespace (lax).  u is an undeclared name in the
@@ -28,7 +28,11 @@ LEAF = {
     'l': frozenset('z'), 'L': frozenset('fz'),
     # local declarations of one name: x and z have type xs:string, y has type xs:int (EDC)
     'x': frozenset('x'), 'y': frozenset('x'), 'z': frozenset('x'),
+    # XSD 1.1 only: two heads p and q that SHARE the member j (substitutionGroup="t:p t:q")
+    'p': frozenset('pj'), 'q': frozenset('qj'), 'j': frozenset('j'),
 }
+GLOBALS_MULTIHEAD = ('<xs:element name="p" type="xs:string"/><xs:element name="q" type="xs:string"/>'
+                     '<xs:element name="j" type="xs:string" substitutionGroup="t:p t:q"/>')
 LOCAL_TYPE = {'x': 'xs:string', 'y': 'xs:int', 'z': 'xs:string'}
 WILD = frozenset('wWtlL')
 
@@ -157,7 +161,8 @@ def schema_text(models, open_content=None):
                   '</xs:openContent>' % (mode, ns[wk]))
         body.append('<xs:element name="r%d"><xs:complexType>%s%s</xs:complexType></xs:element>'
                     % (i, oc, x))
-    return HEAD + default_oc + GLOBALS + ''.join(groups_all) + ''.join(body) + '</xs:schema>'
+    extra = GLOBALS_MULTIHEAD if any(l[1] in 'pqj' for m in models for l in leaves(m)) else ''
+    return HEAD + default_oc + GLOBALS + extra + ''.join(groups_all) + ''.join(body) + '</xs:schema>'
 
 
 def doc(i, w):
